@@ -523,6 +523,12 @@ def check_property(pid, tier):
                     violations.append(fl)
             undecided += e.get('undecided', [])
         wall = time.time() - t0
+        if undecided and violations and all(u.startswith('replay module') for u in undecided):
+            # a bounded replay module that did not finish (e.g. it hangs because of the very defect) must not mask an
+            # obligation a verifier refuted: the violation is reported, the module is noted as not run
+            for u in undecided:
+                print('NOTE: property=%s %s' % (pid, u.split('\n')[0][:300]))
+            undecided = []
         if undecided:
             for u in undecided:
                 print('UNDECIDED: property=%s %s' % (pid, u))
